@@ -48,6 +48,14 @@ impl SwiftField for Field52A {
             });
         }
 
+        if lines.len() > bic_line_idx + 1 {
+            return Err(ParseError::InvalidFormat {
+                message: format!(
+                    "Field 52A has {} line(s) after the BIC",
+                    lines.len() - bic_line_idx - 1
+                ),
+            });
+        }
         let bic = parse_bic(lines[bic_line_idx])?;
 
         Ok(Field52A {
